@@ -392,4 +392,63 @@ def writeMessageComplexSlice (h : Header) (q : Bytes) (t : ElemTy) (xs : List By
 def sliceBuilder (id : Nat) (notify : Bool) (ec qfmt : Nat) (q body : Bytes) : Builder :=
   { id := id, notify := notify, ec := ec, queryFormat := qfmt, bodyFormat := BEVE, query := q, body := body }
 
+/-! ### a whole call: client helper → server route → client decode (handlers echo their input) -/
+
+inductive ClientKind where
+  | bulk      -- `call_typed_slice`
+  | aligned   -- `call_typed_slice_aligned`
+  | serde     -- `call_typed_beve` over `Vec<T>`
+  deriving DecidableEq, Repr
+
+inductive RouteKind where
+  | slice     -- `Router::with_typed_slice`
+  | sliceRef  -- `Router::with_typed_slice_ref`
+  | typed     -- `Router::with_typed::<Vec<T>, Vec<T>>` answering `TypedResponse::beve`
+  deriving DecidableEq, Repr
+
+inductive CallErr where
+  | server (ec : Nat)     -- an error response came back
+  | client (e : NErr)     -- the response did not decode
+  deriving DecidableEq, Repr
+
+/-- The request body the client helper builds behind a `qlen`-byte path. -/
+def requestBody (F : Facts) (k : ClientKind) (t : ElemTy) (qlen : Nat) (xs : List Bytes) : Bytes :=
+  match k with
+  | .bulk => bodyTypedSlice t xs
+  | .aligned => bodyAlignedTypedSlice F t qlen xs
+  | .serde => encodeGeneric t xs
+
+/-- The route, its handler echoing the decoded elements: response body or error code.
+`addr` is where the request body landed in the server's receive buffer. -/
+def serve (F : Facts) (r : RouteKind) (t : ElemTy) (addr : Nat) (body : Bytes) : Except Nat Bytes :=
+  match r with
+  | .slice =>
+    match sliceHandler F t BEVE body with
+    | .called i => .ok (bodyTypedSlice t i.elems)
+    | .reject ec => .error ec
+    | .err _ => .error PARSE_ERROR
+  | .sliceRef =>
+    match sliceRefHandler F t BEVE addr body with
+    | .called i => .ok (bodyTypedSlice t i.elems)
+    | .reject ec => .error ec
+    | .err _ => .error PARSE_ERROR
+  | .typed =>
+    match readGeneric t body with
+    | .ok xs => .ok (encodeGeneric t xs)
+    | .error _ => .error PARSE_ERROR
+
+def clientDecode (F : Facts) (k : ClientKind) (t : ElemTy) (resp : Bytes) : Except NErr (List Bytes) :=
+  match k with
+  | .serde => liftB (readGeneric t resp)
+  | _ => decodeTypedSlice F BEVE t resp
+
+def call (F : Facts) (k : ClientKind) (r : RouteKind) (t : ElemTy) (qlen addr : Nat) (xs : List Bytes) :
+    Except CallErr (List Bytes) :=
+  match serve F r t addr (requestBody F k t qlen xs) with
+  | .error ec => .error (.server ec)
+  | .ok resp =>
+    match clientDecode F k t resp with
+    | .ok ys => .ok ys
+    | .error e => .error (.client e)
+
 end Repe.Beve
